@@ -2577,7 +2577,7 @@ class MSSQLStrictCompiler(MSSQLCompiler):
 
     def visit_not_in_op_binary(self, binary, operator, **kw):
         kw["literal_execute"] = True
-        return "%s NOT IN %s" % (
+        return "(%s NOT IN %s)" % (
             self.process(binary.left, **kw),
             self.process(binary.right, **kw),
         )
